@@ -252,7 +252,11 @@ func substitute(dst reflect.Value, other reflect.Value, s site, kind string, ele
 		case "zero":
 			nb = make([]byte, len(cur))
 		case "random":
-			nb = rng.Bytes(len(cur))
+			n := len(cur)
+			if n == 0 {
+				n = 8 // an unset field (e.g. ProofOfProximity.ID) receives some bytes
+			}
+			nb = rng.Bytes(n)
 		case "other":
 			if !other.IsValid() {
 				return false
